@@ -106,7 +106,8 @@ GOALS_SINGLE = ["min i", "max i", "min i+j", "max i-j", "min x", "max x", "max x
                 "max x signed", "minmax i j", "maxmin i j", "minmax x y", "maxmin x y signed",
                 "maxsmt p:1 q:2 int", "maxsmt p:1 !p:3 q:2 real", "maxsmt i>0:2 p:1 int", "maxsmt x<y:1 p:2 int",
                 "maxsmt p:5 q:-3 int", "maxsmt !p:5 !q:-3 real"]
-GOAL_PAIRS = [("min i", "max j*"), ("max x", "min x&y"), ("min x signed", "max y signed"), ("max i", "min i+j"),
+GOAL_PAIRS = [("min i", "max j*"), ("max x", "min x&y"), ("min x", "min x signed"), ("min x signed", "max y signed"), ("max i", "min i+j"),
+              ("max x signed", "max x"),
               ("min x", "max i"), ("max x+y", "max x signed"), ("minmax i j", "max i-j")]
 
 
@@ -422,9 +423,9 @@ def run_shard(args):
                 continue
             for routine, goalsets in (("optimize", [(g,) for g in GOALS_SINGLE]),
                                       ("maxsmt-extend", [("maxsmt int",), ("maxsmt real",)]),
-                                      ("boxed", GOAL_PAIRS[:3] if quick else GOAL_PAIRS),
+                                      ("boxed", GOAL_PAIRS[:4] if quick else GOAL_PAIRS),
                                       ("lexicographic", GOAL_PAIRS + [(b, a) for a, b in GOAL_PAIRS if "*" not in b]),
-                                      ("pareto", GOAL_PAIRS[:4] if quick else GOAL_PAIRS)):
+                                      ("pareto", GOAL_PAIRS[:5] if quick else GOAL_PAIRS)):
                 for gs in goalsets:
                     if routine in ("lexicographic", "pareto") and any(g.startswith("maxsmt") for g in gs):
                         continue
